@@ -59,7 +59,7 @@ class BaseCUSUMConfig(BaseChangeDetectionConfig):
         :type value: float
         :raises ValueError: Value error exception
         """
-        if value < 0:
+        if not value >= 0:
             raise ValueError("lambda_ must be great or equal than 0.")
         self._lambda = value
 
